@@ -31,7 +31,8 @@ TSrv == /\ IsEvent("srv")
         /\ LET e == Rec[l]
                m == Dec[e.sb] IN
            /\ m.ok                       \* the reference server's bytes are a well-formed PDU
-           /\ e.res \in {"ok", "err"}    \* a panic / hang has no spec action; ok vs err is left free
+           /\ e.res \in {"ok", "err"}    \* a panic / hang has no spec action; ok vs err is left free ...
+           /\ Letter(m) = "ULT" => (e.res = "err" /\ e.ek = "Disconnect")   \* ... except that the end of the session must be reported as such
            /\ Srv(m)
            /\ act' = e.state
            /\ out' = Writes(e)
